@@ -257,7 +257,8 @@ func calcCueItvls(segStart, segDur, utcStart, cueDur int) []cueItvl {
 	cueFullS := int(math.Ceil(float64(cueDur) * 0.001))
 	cueFullMS := cueFullS * 1000
 
-	for utcS := utcStart / cueFullMS; utcS <= (utcStart+segDur)/cueFullMS; utcS += cueFullS {
+	// One cue every cueFullS seconds. utcS is in seconds, so the multiples of cueFullMS are converted back to seconds.
+	for utcS := utcStart / cueFullMS * cueFullS; utcS <= (utcStart+segDur)/cueFullMS*cueFullS; utcS += cueFullS {
 		cueStartMS := utcS * 1000
 		if cueStartMS == utcEndMS {
 			break
